@@ -2,4 +2,4 @@
    parallelise) and src/mxlpy/scan.py by harness/c19.py; do not edit.  An unrecognised shape yields
    SaveUnknown / false, which breaks C19_facts_pinned. *)
 From CacheFS Require Import CacheFS.
-Definition gen_cache_facts : cache_facts := mkCacheFacts SaveDirect true true.
+Definition gen_cache_facts : cache_facts := mkCacheFacts SaveTempReplace true true.
